@@ -174,7 +174,7 @@ func C04(sp *spec.Spec, ex *rt.Exchange) *Verdict {
 			}
 		}
 		if ex.StubIn != nil {
-			v.add(mkKey("leaked", "malformed-request-reached-stub", c.Class, siteTags(sp, m, m.Payload, "", true)), "malformed request (%s) reached user code with payload %v", c.Class, ex.StubIn.Payload)
+			v.add(mkKey("leaked", "malformed-request-reached-stub", c.Class, paramTagsOnly(c.Class, siteTags(sp, m, m.Payload, "", true))), "malformed request (%s) reached user code with payload %v", c.Class, ex.StubIn.Payload)
 			return v
 		}
 		if ex.WireResp.Status < 400 || ex.WireResp.Status > 499 {
@@ -362,9 +362,15 @@ func siteTags(sp *spec.Spec, m *spec.Method, decl *spec.Attr, site string, reque
 		}
 	}
 	if request && m.HTTP != nil && m.Payload != nil {
+		// the listed defect loses the errors accumulated for path, query and header parameters (they are decoded
+		// before the cookies): only a violation located there can be explained by it
+		loc := ""
+		if site != "" {
+			loc, _ = siteLocKind(sp, m, decl, site, nil, false)
+		}
 		prt, _ := sp.Resolve(m.Payload.Type)
 		for _, c := range m.HTTP.Cookies {
-			if prt != nil && prt.Kind == spec.Object && prt.IsRequired(c.Attr) {
+			if prt != nil && prt.Kind == spec.Object && prt.IsRequired(c.Attr) && (site == "" || loc == "path" || loc == "query" || loc == "header") {
 				tags = append(tags, "required-cookie")
 				break
 			}
@@ -484,4 +490,19 @@ func zeroToDefault(sp *spec.Spec, t *spec.Type, v any, depth int) any {
 		return vtree.MkMap(out)
 	}
 	return v
+}
+
+// paramTagsOnly drops the trigger classes that can only explain a lost PARAMETER error when the malformed request
+// is malformed in its body (a body that does not decode ends the request before any parameter is looked at).
+func paramTagsOnly(class string, tags []string) []string {
+	if strings.HasPrefix(class, "malformed:param-") {
+		return tags
+	}
+	var out []string
+	for _, t := range tags {
+		if t != "required-cookie" {
+			out = append(out, t)
+		}
+	}
+	return out
 }
